@@ -28,6 +28,10 @@ use crate::REQUEST_FRAMING_BYTES;
 
 const HEX: Encoding = HEXLOWER_PERMISSIVE;
 
+/// `to_string` stops descending into nested messages at this depth (Roughtime nests two levels:
+/// response -> CERT -> DELE), so displaying an untrusted message uses bounded stack.
+const MAX_DISPLAY_NESTING: usize = 16;
+
 ///
 /// A Roughtime protocol message; a map of u32 tags to arbitrary byte-strings.
 ///
@@ -336,9 +340,10 @@ impl RtMessage {
             result.push_str(&value.len().to_string());
             result.push_str(") = ");
 
-            // a nested value that is not a valid message is shown as hex, like any other value
+            // a nested value that is not a valid message, or that is nested deeper than any Roughtime
+            // message ever is, is shown as hex, like any other value
             match RtMessage::from_bytes(value) {
-                Ok(nested_msg) if tag.is_nested() => {
+                Ok(nested_msg) if tag.is_nested() && indent_level < MAX_DISPLAY_NESTING => {
                     result.push_str(&nested_msg.to_string(indent_level + 1))
                 }
                 _ => {
